@@ -8,6 +8,8 @@ stores patch + demonstration + meta.json under /verif/seeded/<Cxx-mN>/.
 """
 import json, os, shutil, subprocess, sys, time
 
+WS = os.environ.get("VERIF_WS", "/verif")
+REPO = os.environ.get("VERIF_REPO", "/repo")
 ENV = dict(os.environ, GOFLAGS="-mod=mod", GOPROXY="off", GOSUMDB="off", GOTOOLCHAIN="local")
 
 
@@ -63,22 +65,22 @@ def main():
     res["confirmed"] = bool(confirmed)
     if confirmed:
         # run our check against it on /repo, undo straight afterwards
-        rc, out = sh(["git", "-C", "/repo", "status", "--short"])
+        rc, out = sh(["git", "-C", REPO, "status", "--short"])
         if out.strip():
             print("/repo is not clean; refusing", out)
             return 2
-        evp = "/verif/evidence/%s.json" % prop
+        evp = WS + "/evidence/%s.json" % prop
         evidence_backup = open(evp, "rb").read() if os.path.exists(evp) else None
         try:
-            rc, out = sh(["git", "-C", "/repo", "apply", diff])
+            rc, out = sh(["git", "-C", REPO, "apply", diff])
             t0 = time.time()
-            rc, out = sh(["./check", prop, "--tier", tier], cwd="/verif", timeout=7200)
+            rc, out = sh(["./check", prop, "--tier", tier], cwd=WS, timeout=7200)
             res["check_cmd"] = "./check %s --tier %s" % (prop, tier)
             res["check_rc"] = rc
             res["check_wall_s"] = round(time.time() - t0, 1)
             res["check_output"] = "\n".join(l[:400] for l in out.strip().splitlines()[-6:])
             res["caught"] = rc == 1 and "VIOLATION property=%s" % prop in out
-            rp = "/verif/replay/%s-1.json" % prop
+            rp = WS + "/replay/%s-1.json" % prop
             if res["caught"] and os.path.exists(rp):
                 r = json.load(open(rp))
                 res["replay_kind"] = r.get("kind")
@@ -87,8 +89,8 @@ def main():
                 res["replay_detail"] = str(r.get("detail") or r.get("payload"))[:600]
                 res["no_failing_input_found"] = "no-failing-input-found" in out
         finally:
-            sh(["git", "-C", "/repo", "checkout", "--", "."])
-            sh(["git", "-C", "/repo", "clean", "-fdq"])
+            sh(["git", "-C", REPO, "checkout", "--", "."])
+            sh(["git", "-C", REPO, "clean", "-fdq"])
             # the evidence file describes the unchanged tree: put back what was there
             if evidence_backup is not None:
                 open(evp, "wb").write(evidence_backup)
